@@ -55,6 +55,9 @@ func normName(full string) string {
 func fullNorm(full string) string { return normRe.ReplaceAllString(full, "") }
 
 func matchPattern(pat, full string) bool {
+	if pat == "*" {
+		return true
+	}
 	p := normRe.ReplaceAllString(pat, "")
 	n := normName(full)
 	fn := fullNorm(full)
@@ -128,11 +131,39 @@ func (f *Frame) doCall(instr ssa.Instruction, c *ssa.CallCommon, args []Value, r
 		}
 	}
 	res := f.dispatchCall(instr, c, args, rt, fnv, name)
-	// ---- ghost tracking
-	for _, pat := range e.tracked {
+	// ---- ghost tracking ("P" = latest call of P on the path; "P#k" = the k-th call site of P in encoding order)
+	if e.callOrd == nil {
+		e.callOrd = map[string]int{}
+		e.callOrdSite = map[ssa.Instruction]map[string]int{}
+	}
+	for _, pat0 := range e.tracked {
+		pat := pat0
+		want := -1
+		if k := strings.LastIndex(pat0, "#"); k >= 0 {
+			pat = pat0[:k]
+			fmt.Sscanf(pat0[k+1:], "%d", &want)
+		}
 		if !matchPattern(pat, name) {
 			continue
 		}
+		if want >= 0 {
+			m := e.callOrdSite[instr]
+			if m == nil {
+				m = map[string]int{}
+				e.callOrdSite[instr] = m
+			}
+			ord, seen := m[pat]
+			if !seen {
+				ord = e.callOrd[pat+"@"+fmt.Sprint(want >= 0)]
+				// ordinal of this call site among the sites matching pat (each site counted once)
+				ord = e.siteCount(pat, instr)
+				m[pat] = ord
+			}
+			if ord != want {
+				continue
+			}
+		}
+		pat = pat0
 		f.st.heaps[ghostName("called", pat, -1)] = tTrue
 		_, rest, restVals := f.explicitArgs(c, args)
 		for i, a := range rest {
@@ -165,6 +196,21 @@ func (f *Frame) doCall(instr ssa.Instruction, c *ssa.CallCommon, args []Value, r
 		}
 	}
 	return res
+}
+
+// siteCount returns the ordinal of a call site among all call sites matching pat, in order of first encoding.
+func (e *Enc) siteCount(pat string, instr ssa.Instruction) int {
+	lst := e.callSites[pat]
+	for i, in := range lst {
+		if in == instr {
+			return i
+		}
+	}
+	if e.callSites == nil {
+		e.callSites = map[string][]ssa.Instruction{}
+	}
+	e.callSites[pat] = append(lst, instr)
+	return len(lst)
 }
 
 func (f *Frame) bindCallEnv(env *SpecEnv, c *ssa.CallCommon, args []Value) {
@@ -394,6 +440,23 @@ func (e *Enc) contractProps() []string {
 		return e.contract.Props
 	}
 	return nil
+}
+
+func (f *Frame) ufResultSorts(key string, i int, all []Value, rtp types.Type) Term {
+	e := f.e
+	n := fmt.Sprintf("uf_%s_%d", sanitize(normName(key)), i)
+	var sorts []string
+	var ts []Term
+	for _, a := range all {
+		sorts = append(sorts, string(a.T.Sort))
+		ts = append(ts, a.T)
+	}
+	rs := e.sortOf(rtp)
+	e.predeclare(n, fmt.Sprintf("(declare-fun %s (%s) %s)", n, strings.Join(sorts, " "), rs))
+	if len(ts) == 0 {
+		return sym(n, rs)
+	}
+	return app(rs, n, ts...)
 }
 
 func (f *Frame) ufResult(key string, i int, all []Value, allT []types.Type, rtp types.Type) Term {
@@ -892,7 +955,11 @@ func (f *Frame) callEffects(c *ssa.CallCommon, eff *effects, seen map[*ssa.Funct
 	e := f.e
 	name := calleeName(c)
 	for _, pat := range e.tracked {
-		if matchPattern(pat, name) {
+		base := pat
+		if k := strings.LastIndex(pat, "#"); k >= 0 {
+			base = pat[:k]
+		}
+		if matchPattern(base, name) {
 			eff.names[ghostName("called", pat, -1)] = SBool
 			for k, s := range e.ghostSorts {
 				if strings.HasPrefix(k, ghostName("arg", pat, 0)[:len(ghostName("arg", pat, 0))-1]) || strings.HasPrefix(k, ghostName("ret", pat, 0)[:len(ghostName("ret", pat, 0))-1]) {
